@@ -449,6 +449,22 @@ func FixTextAlphabet(f *rm.Field, o Opts) [][]byte {
 		add([]byte{0, 'a'})
 		add([]byte{'a', 0})
 	}
+	// bytes that are bit-neighbours of the pad byte (pad^1, pad^0x80, pad+1, pad-1), next to a pad byte: trimming done
+	// with word-at-a-time / arithmetic tricks confuses exactly these with the pad
+	for _, nb := range []byte{pad ^ 1, pad ^ 0x80, pad + 1, pad - 1} {
+		add([]byte{nb})
+		if n >= 2 {
+			add([]byte{pad, nb})
+			add([]byte{nb, pad})
+		}
+		if n >= 3 {
+			add([]byte{other, pad, nb})
+			add([]byte{nb, pad, other})
+		}
+		if n >= 4 {
+			add([]byte{other, pad, nb, nb})
+		}
+	}
 	// non-canonical members
 	add(dtext(3, n+1))
 	add(append(dtext(5, n+2), 0xE4, 0xB8, 0xAD)) // N+5, cutting may split a rune
